@@ -65,3 +65,59 @@ def run(F, chk):
         L5.paths += ex.n_states
         effects.check_may_write(F, E1, b.path, set(), what='the sort stage')
     comps = comparators.check(F, O1, lambda b: (b.impl_self or '').startswith('adlt::utils::SortedDltMessage'), floor=1)
+    O2 = chk.rule('O2', 'the heap key (calculated time) of every buffered message is capped at its reception time before it enters the heap')
+    for b in stages:
+        check_key_cap(b, O2)
+    O2.floor('sort stage functions', len(stages), 1)
+
+
+def check_key_cap(b, O2):
+    """SortedDltMessage { m, calculated_time_us: v }: v must be clamped to m.reception_time_us
+    (if v > recv { v = recv } dominating the construction, or min(v, recv))"""
+    from expr import ExprBuilder, show, walk
+    from facts import Operand
+    import guards
+    cfg = CFG(b)
+    E = ExprBuilder(cfg, fold_named=True)
+    O2.fn(b.path)
+    n = 0
+    for blk in b.blocks:
+        if blk.cleanup:
+            continue
+        for s in blk.stmts:
+            if s.k == 'assign' and s.rv['k'] == 'agg' and s.rv.get('adt', '').endswith('SortedDltMessage'):
+                fields = s.rv.get('fields', [])
+                if 'calculated_time_us' not in fields:
+                    continue
+                n += 1
+                O2.sites += 1
+                v = E.operand(Operand(s.rv['ops'][fields.index('calculated_time_us')]))
+                why = None
+                sv = show(v)
+                if ('cmp::min(' in sv or 'Ord::min(' in sv) and 'reception_time_us' in sv:
+                    why = 'min(.., reception time)'
+                if why is None:
+                    for D in cfg.dominators(blk.i):
+                        db = b.blocks[D]
+                        if db.term.k != 'switch':
+                            continue
+                        c, t = guards.normalise(E.switch_cond(db), True)
+                        if not (isinstance(c, tuple) and c[0] == 'bin' and c[1] in ('Gt', 'Lt')):
+                            continue
+                        x, y = (c[2], c[3]) if c[1] == 'Gt' else (c[3], c[2])     # x > y
+                        if x != v or 'reception_time_us' not in show(y):
+                            continue
+                        true_t = db.term.d['otherwise'] if [vv for vv, _ in db.term.d['vals']] == [0] else None
+                        if true_t is None:
+                            continue
+                        region = [q for q in range(cfg.n) if q in cfg.reach and cfg.dominates(true_t, q)]
+                        for q in region:
+                            for st in b.blocks[q].stmts:
+                                if st.k == 'assign' and E.target(st.place) == v and E.rvalue(st.rv) == y:
+                                    why = 'clamped: if %s > %s { %s = %s }' % (show(v), show(y)[:40], show(v), show(y)[:40])
+                if why:
+                    O2.ok(sample={'heap_key': sv[:60], 'capped_by': why, 'at': b.loc(s.sp)})
+                else:
+                    O2.violation(('key-not-capped', b.path), 'the calculated time %s used as heap key at %s is not capped at the reception time of the message: a message whose lifecycle start + timestamp lies after its reception is sorted (and held back) by that future time' % (sv[:60], b.loc(s.sp)),
+                                 where=b.loc(s.sp))
+    O2.floor('SortedDltMessage constructions in ' + b.path, n, 1)
